@@ -34,6 +34,8 @@ type srcSet struct {
 	deep *World
 	bind map[*ssa.Parameter]ssa.Value
 	amb  map[*ssa.Parameter]bool
+	// calls whose arguments are not followed
+	opaque map[string]bool
 }
 
 // resolve: a parameter of an entered helper stands for the argument it was called with.
@@ -129,6 +131,9 @@ func backward(v ssa.Value, s *srcSet, seen map[ssa.Value]bool) {
 			name = "builtin:" + b.Name()
 		}
 		s.calls[name] = append(s.calls[name], x)
+		if s.opaque[name] {
+			return // what this call is given does not count as an input of the value (a file name used to find the content)
+		}
 		for _, a := range x.Call.Args {
 			backward(a, s, seen)
 		}
